@@ -307,7 +307,15 @@ func (r *Ref) DecodeAndCheck(q Req, payload []byte) error {
 			return err
 		}
 		if nd.IsEmpty() {
-			return fmt.Errorf("empty namespace data")
+			// no rows: right exactly when no row root's namespace range contains the namespace
+			rows, err := share.RowsWithNamespace(r.Roots, NsOf(q.Ns))
+			if err != nil {
+				return err
+			}
+			if len(rows) != 0 {
+				return fmt.Errorf("empty namespace data although %d rows may hold the namespace", len(rows))
+			}
+			return nil
 		}
 		return r.CheckND(nd, NsOf(q.Ns))
 	case "range":
